@@ -49,8 +49,11 @@ META = {
             "mapping (reads getEndorsedBy/getBestChain itself), tools/gen_rewardparams.py (regex over the headers, fails "
             "closed on an unknown member/operator shape; cross-checked against the library's own defaults by the "
             "`pardefault` op). ArithUint256 is modelled as Z mod 2^256 (the byte-level model is C18's). The "
-            "double->fixed conversion (uint64_t)(d*1e8) is binary64 arithmetic, not modelled in Coq: mirrored in "
-            "Python, compared with the C++ on every run (observation: it truncates, so table entries 23 and 36 are "
+            "double->fixed conversion (uint64_t)(d*1e8) is modelled with Coq primitive floats (Rewards/ConvDefs.v, not "
+            "extractable): C14_conv_double_u64, C14_default_conversion (the generated converted defaults = the float "
+            "model on the source literals), C14_conversion_exact_refuted; every double of a run (conv lines, par "
+            "tokens) is evaluated in Coq by vm_compute and compared with the C++ result; the Python mirror only "
+            "produces the inputs (observation: it truncates, so table entries 23 and 36 are "
             "6766427 and 3267968, one unit below the decimal literals). Not modelled: getATV failure path, "
             "logging, the VBK_ASSERT preconditions of getPopPayout about the tree state. Mutating `>` to `>=` at the "
             "slope start is behaviour-preserving for well-formed parameters (penalty 0 at the boundary) and is only "
@@ -701,6 +704,47 @@ def window_stats(lines, ires, mres):
     return st
 
 
+def check_conv_in_coq(ctx, all_lines, ires_all, limit=2500):
+    """Rewards/ConvDefs.conv_double (primitive floats, vm_compute) on the doubles of this run: every `conv` line is
+    compared with what the C++ PopRewardsBigDecimal(double) returned; every double token d/hex of the `par` lines is
+    compared with its hex part (which the `par` op compared with the C++ conversion)"""
+    import re
+    want = {}
+    for cid, text in all_lines:
+        t = text.split()
+        if t[0] == "conv":
+            r = ires_all.get(cid, "")
+            if r.startswith("ok "):
+                want.setdefault(t[1], int(r.split()[1], 16))
+        elif t[0] == "par" and ires_all.get(cid, "").startswith("ok"):
+            for tok in re.findall(r"(-?0x[0-9a-f.]+p[+-]\d+)/([0-9a-f]+)", text):
+                want.setdefault(tok[0], int(tok[1], 16))
+    keys = sorted(want)[:limit]
+    ctx.cov["conv_doubles_checked_in_coq"] = 0
+    if not keys:
+        return
+    v = os.path.join(ctx.work, "conv_cases.v")
+    with open(v, "w") as f:
+        f.write("From Coq Require Import ZArith List Floats.\nImport ListNotations.\nFrom VB Require Import Rewards.ConvDefs.\n"
+                "Local Open Scope Z_scope.\nDefinition cz (o : option Z) : Z := match o with Some z => z | None => -1 end.\n")
+        for lo in range(0, len(keys), 50):
+            f.write("Definition cv_%d : list Z := [%s].\n" % (lo // 50, "; ".join(
+                "cz (conv_double (%s)%%float)" % k for k in keys[lo:lo + 50])))
+        f.write("Eval vm_compute in (%s).\n" % " ++ ".join("cv_%d" % i for i in range((len(keys) + 49) // 50)))
+    rc, out, err = vlib.sh(["timeout", "300", "coqc", "-Q", vlib.COQ, "VB", "-w", "-all", v], cwd=ctx.work, timeout=330)
+    got = [int(x) for x in re.findall(r"-?\d+", out.split("=", 1)[1].rsplit(":", 1)[0])] if rc == 0 and "=" in out else None
+    if got is None or len(got) != len(keys):
+        ctx.broken.append("corr:ConvDefs.conv_double: in-Coq evaluation failed (rc=%d %s)" % (rc, " ".join((err or out).split())[-300:]))
+        return
+    for k, g in zip(keys, got):
+        if g != want[k]:
+            ctx.violation({"kind": "input", "lines": ["conv %s %x" % (k, want[k])], "model": "%x" % g if g >= 0 else "undefined",
+                           "impl": "%x" % want[k], "what": "PopRewardsBigDecimal(double) differs from the binary64 model "
+                           "ConvDefs.conv_double evaluated in Coq"})
+            return
+    ctx.cov["conv_doubles_checked_in_coq"] = len(keys)
+
+
 def is_tree(lines):
     return any(l.split(" ", 1)[0] == "scen" for l in lines)
 
@@ -747,6 +791,7 @@ def run(ctx):
             tree.add(t)
 
     bad = []          # (text, context lines, model, impl)
+    conv_src = [[], {}]
     oracle = []       # (context lines + text, oracle text)
     total = 0
     vc = {"scenarios": 0, "endorsed_blocks": 0, "endorsements": 0, "endorsements_off_best_chain": 0,
@@ -758,6 +803,8 @@ def run(ctx):
         mres, ires, orc, err, skipped, extra = runner(model, H, cs.lines, ctx.work, tag)
         timing[tag + "_run_s"] = round(time.time() - t1, 1)
         xc_collect(os.path.join(ctx.work, tag + "_model.txt"), mres)
+        conv_src[0] += list(cs.lines)
+        conv_src[1].update(ires)
         if err:
             ctx.broken.append("runner(%s): %s" % (tag, err))
         if tag == "tree":
@@ -785,6 +832,10 @@ def run(ctx):
         ctx.cov[tag + "_spec_evaluated_mismatches"] = sum(1 for v in mres.values() if "SPEC-MISMATCH" in v)
         for cid, text in cs.lines[:2] + cs.lines[-1:]:
             ctx.sample({"line": text[:300], "model": (mres.get(cid) or "")[:200], "impl": (ires.get(cid) or "")[:200]})
+    if conv_src[0]:
+        t1 = time.time()
+        check_conv_in_coq(ctx, conv_src[0], conv_src[1])
+        timing["conv_in_coq_s"] = round(time.time() - t1, 1)
     if not ctx.replay:
         t1 = time.time()
         run_xcheck(ctx)
